@@ -154,7 +154,12 @@ enum Unit {
         file: String,
         self_ty: String,
         func: String,
+        #[serde(default)]
         closure: usize,
+        /// alternative to `closure`: the statements of the function body from the first one whose text starts with this
+        /// string to the end (R8 suffix, but processed like a function: R2-R13 apply)
+        #[serde(default)]
+        stmts_from: String,
         /// `impl<'a> JoinOutput<'a>`
         header: String,
         /// text between `fn` and the body: `name<T>(&self, a: A) -> R`
@@ -3115,6 +3120,7 @@ fn main() {
                 self_ty,
                 func,
                 closure,
+                stmts_from,
                 header,
                 sig,
                 spec,
@@ -3148,9 +3154,20 @@ fn main() {
                                             syn::visit::visit_expr_closure(self, c);
                                         }
                                     }
-                                    let mut fd = Find { k: 0, want: *closure, out: None };
-                                    fd.visit_block(&f.block);
-                                    found = fd.out;
+                                    if !stmts_from.is_empty() {
+                                        let (_, blk_e) = br(f.block.span());
+                                        for st in &f.block.stmts {
+                                            let (ss, _) = br(st.span());
+                                            if src.text[ss..].starts_with(stmts_from.as_str()) {
+                                                found = Some((ss, blk_e - 1));
+                                                break;
+                                            }
+                                        }
+                                    } else {
+                                        let mut fd = Find { k: 0, want: *closure, out: None };
+                                        fd.visit_block(&f.block);
+                                        found = fd.out;
+                                    }
                                 }
                             }
                         }
